@@ -140,6 +140,22 @@ func c01ExtraSpecs(c *core.Check, rng *rand.Rand) ([]*aspec.ASpec, []string) {
 		op.Responses = []aspec.RespRef{{Status: "200", Ref: "BaseAlias"}}
 		add("wireop:fixed@aliasResponseInlineObjectBody", a)
 	}
+	{
+		// component responses on the root path and on a trailing-slash path, no operationId
+		a, _ := mk()
+		a.Responses = []aspec.NamedResponse{{Name: "Ok", R: &aspec.Response{Desc: "ok", Body: aspec.Body{K: "json", Schema: &str}}}}
+		root := []aspec.Seg{{K: "lit", S: ""}}
+		slash := []aspec.Seg{{K: "lit", S: "a"}, {K: "lit", S: ""}}
+		plain := []aspec.Seg{{K: "lit", S: "a"}}
+		var items []aspec.PathItem
+		for _, t := range [][]aspec.Seg{root, slash, plain} {
+			o := simpleOp("GET", t)
+			o.Responses = []aspec.RespRef{{Status: "200", Ref: "Ok"}}
+			items = append(items, aspec.PathItem{Template: t, Ops: []aspec.Op{o}})
+		}
+		a.Paths = items
+		add("config:component-response-on-root-and-trailing-slash", a)
+	}
 	// random compositions: seeded operations of the wire universe one by one, and packed (client on)
 	nOps := 60
 	if c.Tier == "thorough" {
